@@ -571,12 +571,6 @@ func (m *Manager) HandleStreamData(streamID uint64, flags uint8, data []byte) er
 		return fmt.Errorf("unknown stream %d", streamID)
 	}
 
-	// Handle FIN flags
-	if flags&protocol.FlagFinWrite != 0 {
-		stream.HandleRemoteFinWrite()
-	}
-	verifYield("HandleStreamData.between")
-
 	if len(data) > 0 {
 		if err := stream.PushData(data); err != nil {
 			return err
@@ -585,6 +579,13 @@ func (m *Manager) HandleStreamData(streamID uint64, flags uint8, data []byte) er
 		if m.onStreamData != nil {
 			m.onStreamData(stream, data)
 		}
+	}
+	verifYield("HandleStreamData.between")
+
+	// Handle FIN flags only after the frame's data is buffered: a reader that
+	// is woken by the remote half-close must find the data that arrived with it.
+	if flags&protocol.FlagFinWrite != 0 {
+		stream.HandleRemoteFinWrite()
 	}
 
 	return nil
